@@ -61,7 +61,7 @@ func besideCwd(script string) bool {
 // name tried. The oracle is the package's: acceptance by the name alone, an accepted save writes cwd/<stem>.gr only,
 // an accepted load evaluates cwd/<stem>.gr only, everything else leaves the tree as it was.
 func TestScriptLocation(t *testing.T) {
-	pbt.Check(t, 24, 600, func(rt *rapid.T) {
+	pbt.Check(t, 10, 400, func(rt *rapid.T) {
 		script := scriptPath(rt)
 		cfg := rapid.SampledFrom([]Config{cfgRestricted, cfgRestricted, cfgEmptyOnly}).Draw(rt, "cfg")
 		base := filepath.Base(script)
@@ -94,7 +94,7 @@ func drawReinit(rt *rapid.T, nNames int) Reinit {
 // empty-only flag, load/save enabled) after the first, restricting, call and before some of the attempts. Only the
 // first call counts: the oracle is the package's, with the first configuration.
 func TestInitAgain(t *testing.T) {
-	pbt.Check(t, 24, 600, func(rt *rapid.T) {
+	pbt.Check(t, 10, 400, func(rt *rapid.T) {
 		cfg := rapid.SampledFrom([]Config{cfgRestricted, cfgEmptyOnly, cfgEmptyOnly, cfgDisabled}).Draw(rt, "cfg")
 		fixed := []string{"", "a", "abc", "a.gr", "../outside.gr", "../escaped", "sub/new", "../outside/new", ".gr"}
 		names := drawNames(rt, fixed, 4, 10)
